@@ -146,13 +146,13 @@ def candidates(dash, ext):
 
 
 SEARCH_POOL = [b".qmail", b".qmail-", b".qmail-a", b".qmail-a-default", b".qmail-default", b".qmail-a-b", b".qmail-a-b-default",
-               b".qmail-a-b-c", b".qmail-a:b", b".qmail-a-", b".qmail--", b".qmail--default", b".qmail-x"]
+               b".qmail-a-b-c", b".qmail-a:b", b".qmail-a-", b".qmail--", b".qmail--default", b".qmail-x", b".qmail-z", b".qmail-@[`{"]
 DECOYS = [b".qmail-A", b".qmail-a.b", b".qmail-A-default", b".qmail-a-B", b".qmail-DEFAULT", b".qmail-a-b-C", b".qmail-A-B",
-          b".qmail-a-bdefault", b".qmail-adefault", b".qmaila", b".qmail-a-b-c-default-x"]
+          b".qmail-a-bdefault", b".qmail-adefault", b".qmaila", b".qmail-a-b-c-default-x", b".qmail-Z"]
 EXTS = [(b"", b""), (b"-", b""), (b"-", b"a"), (b"-", b"a-b"), (b"-", b"a-b-c"), (b"-", b"A"), (b"-", b"A-B"), (b"-", b"a.b"),
         (b"-", b"a/b"), (b"-", b"a-"), (b"-", b"-"), (b"-", b"a--b"), (b"-", b"x"), (b"-", b"y"), (b"-", b"a-b-"), (b"-", b"default"),
         (b"-", b"a-default"), (b"-", b"d/e"), (b"-", b"d/../../out"), (b"-", b"../out"), (b"-", b"a-b-c-d-e"), (b"-", b"a-B.c"),
-        (b"-", b"a b"), (b"-", b"a\nb")]
+        (b"-", b"a b"), (b"-", b"a\nb"), (b"-", b"Z"), (b"-", b"@[`{")]
 KINDS = ["absent"] * 8 + ["r600"] * 5 + ["r644", "r602", "r622", "r700", "r620", "dir", "fifo", "symlink"]
 
 
@@ -666,16 +666,23 @@ def main():
             f.write('SPECIFICATION Spec\nCONSTANTS\n Slice = "%s"\n Big = %s\nINVARIANT Conforms\nINVARIANT SearchAgrees\n'
                     % (sl, "TRUE" if thorough else "FALSE"))
         return sl, tlc("DotQmailP", cfg, workers=max(2, NCPU // 3), timeout=3000, heap="6g")
-    if not a.replay:
-        for sl, res in sessions.pmap(model, ["S", "I", "H"], workers=3):
+    models = None
+    if not a.replay and not os.environ.get("VERIF_C13_NOMODEL"):      # (development aid: real code only)
+        import concurrent.futures
+        pool = concurrent.futures.ThreadPoolExecutor(max_workers=3)
+        models = [pool.submit(model, sl) for sl in ("S", "I", "H")]   # run beside the real-code phase, collected below
+
+    def collect_models():
+        for fut in models or []:
+            sl, res = fut.result()
             need_ok(res, "DotQmailP slice " + sl)
             ck.add_tlc("DotQmailP(Slice=%s,Big=%s)" % (sl, thorough), res)
             if res.violated:
                 ck.model_violation("DotQmailP/" + sl, res)
             if res.distinct < 1000:
                 raise Infra("DotQmailP slice %s explored only %d states" % (sl, res.distinct))
+        log("C13: model runs done after %.0f s" % (time.time() - ck.t0))
 
-    log("C13: model runs done after %.0f s" % (time.time() - ck.t0))
     # ---- real code
     tree = build_tree(ck.scratch, split=3)
     rn = Runner(ck, tree)
@@ -720,6 +727,7 @@ def main():
         fam[c["tag"].split("-")[0]] = fam.get(c["tag"].split("-")[0], 0) + 1
         ck.count((c["n"], c["hmode"], tuple((f["nm"], f["kind"], f["mode"], f["body"]) for f in c["files"]), c["dash"], c["ext"], c["local"],
                   c["host"], c["sender"], c["dflt"], c["msg"]), nontrivial=True)
+    collect_models()
     recfile = ck.scratch.path("c13.ndjson")
     write_ndjson(recfile, recs)
     t1 = time.time()
@@ -728,6 +736,10 @@ def main():
     log("C13: %d records judged by TLC in %.0f s" % (len(recs), time.time() - t1))
     ck.cov["traces_validated_against_impl"] = len(recs)
     ck.cov["families"] = fam
+    ck.cov["runs_with"] = {"program_run": sum(1 for o in obs if any(e["k"] == "P" for e in o["ev"])),
+                           "forward": sum(1 for o in obs if any(e["k"] == "Q" for e in o["ev"])),
+                           "file_delivery": sum(1 for o in obs if o["dl"]), "plan_printed": sum(1 for o in obs if o["plan"]),
+                           "several_instructions_took_effect": sum(1 for o in obs if len(o["ev"]) + sum(o["fin"]) >= 2)}
     ck.cov["outcomes"] = {str(k): sum(1 for o in obs if o["rc"] == k) for k in sorted({o["rc"] for o in obs})}
     step = max(1, len(cases) // 5)
     for c, o in list(zip(cases, obs))[::step]:
